@@ -22,7 +22,13 @@ def make_cases(tier, rng):
         k = rng.randint(3, 6)
         ests = [g.est(rng, order="accept_first", gap=rng.choice([1500, 2500, 3500]), start=j * 40) for j in range(k)]
         add(rng.choice(["inproc", "process"]), ests, "accepts-pending")
-    # transport security and the custom runner's address translation path
+    # in-process pairs with the goroutine that reaches a hook point held there for a while (perturbed
+    # interleavings inside an establishment; the recorded trace must still be a behaviour of the model)
+    gates = ["grpc.run.recv", "grpc.getclientstream", "grpc.run.park", "grpc.dial.slot", "grpc.accept.listening", "grpc.dial.took", "grpc.stream.send"]
+    for gate in (rng.sample(gates, 3) if tier == "quick" else gates * 2):
+        ests = [g.est(rng, gap=rng.choice([0, 0, 50, 300]), start=j * rng.choice([0, 30, 200])) for j in range(rng.randint(3, 5))]
+        add("inproc", ests, "held")
+        cases[-1]["hold"] = {"gate": gate, "side": "", "ms": rng.choice([150, 300, 400])}
     for tls, launch in ([("auto", "cmd"), ("", "runner")] if tier == "quick" else [("auto", "cmd"), ("", "runner"), ("auto", "runner")] * 3):
         add("process", [g.est(rng, keep=True) for _ in range(5)], "tls-or-runner", tls=tls, launch=launch)
     # unmatched peers followed by fresh pairs (the gRPC half of C09)
@@ -37,10 +43,17 @@ def run(tier, seed):
     rep = vlib.Report(PROP, tier, seed, "model_checking")
     r1 = vlib.tlc_expect_ok("GRPCPlain", "grpcplain.cfg", timeout=1800)
     vlib.tlc_expect_violation("GRPCPlain", "grpcplain_shared.cfg", "Routing")
+    # the same protocol at the grain of the code's critical sections (the model the recorded traces are validated against)
+    r1b = vlib.tlc_expect_ok("GRPCPlainImpl", "grpcplainimpl.cfg", timeout=1800)
+    if tier == "thorough":
+        vlib.tlc_expect_ok("GRPCPlainImpl", "grpcplainimpl_redial.cfg", timeout=1800)
+    vlib.tlc_expect_violation("GRPCPlainImpl", "grpcplainimpl_shared.cfg", "Routing")
+    vlib.tlc_expect_violation("GRPCPlainImpl", "grpcplainimpl_mapentry.cfg", "NoMapEntryLeft")
     cases = make_cases(tier, rng)
     obs_list = g.run_and_judge(rep, cases, "c07", PROP, "c07")
+    rep.coverage["binding_selftest_mutations_rejected"] = g.plain_trace_selftest(obs_list, "c07")
     rep.coverage.update({
-        "states": r1["distinct"], "transitions": r1["generated"], "traces_validated_against_impl": len(obs_list),
+        "states": r1["distinct"] + r1b["distinct"], "transitions": r1["generated"] + r1b["generated"], "traces_validated_against_impl": len(obs_list),
         "evaluations": sum(len(c["ests"]) for c in cases), "distinct_nontrivial": len(set((c["pair"], c["tls"], c["launch"], e["dir"], e["order"], e["gap_ms"], e["nopeer"]) for c in cases for e in c["ests"])),
         "rule": "scenario = one host/plugin pair (in-process or real process; plain, AutoMTLS, custom runner) with k establishments (direction, accept- or dial-first, gap inside the 5 s "
                 "window, some kept open) running concurrently; evaluations = establishments; distinct = distinct (pair kind, direction, order, gap, peer) tuples",
